@@ -25,7 +25,8 @@ RULE = ("for every (class, value, raw_value) case the harness builds v = Class(v
         "copy/deepcopy/pickle protocols 0..5 for values and for whole parsed packets (items, order, raw bytes, "
         "cursor); a value object handed as the built-in to each compatible value class without a raw value must give the same "
         "value and raw_value as the plain built-in; for parsed values of generated documents (half of them leaning on context "
-        "calibrators) the class must be the one the reference model derives from the parameter's definition. distinct_nontrivial = distinct (class, value category, raw category) signatures, where "
+        "calibrators) the class must be the one the reference model derives from the parameter's definition; ~17 binary operations "
+        "between two value objects whose raw values order differently from their values. distinct_nontrivial = distinct (class, value category, raw category) signatures, where "
         "category distinguishes zero/falsy, negative, huge, nan, inf, empty, non-ASCII, NUL-containing, ordinary; "
         "(IntParameter, ordinary, none) is the trivial signature and is excluded.")
 ASSUMPTIONS = ["BoolParameter is int-backed; it is compared with bool for repr and with int(bool) for arithmetic, "
